@@ -95,6 +95,12 @@ CLAIMED = {
   text="On every block of generated chains up to 8 of ~75 catalogue mutations are applied (header fields, outer signature under another key/domain/fork version/genesis root, randao, attestation data/bits/signature incl. subset and cross-domain signatures, attester and proposer slashing shape/signature/index faults, deposit count/proof/order/amount, exit epoch/key/domain/index/duplicate and the Deneb fixed-domain rule, BLS-change faults, sync-aggregate faults, payload parent hash/randao/timestamp/withdrawals/blob limit, lists over limit, duplicated operations, and four benign edits that must still be accepted with the reference post-state). A mutated block the reference rejects must make the library return an error, never a panic; because a stale declared state root would hide a missing body check, the comparison is repeated with validate_result=false. Byte-level corruptions (bit flips, truncation, splice, 4-byte overwrite) must be undecodable, rejected, or decode to the very block that was signed. Sampling; multi-fault blocks only via the byte-level generator.",
   note="Trusted base: refspec/refssz, BLS library. Non-trivial cases are those the reference rejects with a message of the targeted assertion family (measured per (fork, mutation id)). Which error the library returns is irrelevant.",
   ref="§3 C03"),
+ "C15": dict(
+  technique="data-driven property testing (rapid): an accessor table of 816 method chains over six forks invoked by reflection on states loaded from refssz-encoded random values, each call judged against an independent value model (result, byte-exact re-serialisation with only the named target changed, independent hash-tree-root, getter read-back); stateful copy histories holding 2-4 CopyState/Clone-related states mutated by any accessor or by full simulator blocks/skips on siblings",
+  level="exploration",
+  text="Every exported accessor of every fork's BeaconStateView (phase0..electra) and of each typed sub-view reachable from it is exercised non-trivially at every seed (one mandatory class per table row): getters against the field path in the independently decoded state, setters against 'that field changed and every other byte unchanged', element accessors with modulo wrap, out-of-range and at-limit indices, compound ops against their written effect. Copy histories check after every action that every untouched state still has its snapshot bytes, root and (for simulator locks) a context equal to a fresh one. Values, indices and interleavings are sampled. Three genuine defects found and repaired.",
+  note="Trusted: refssz and the accessor table (spec_tables/state_accessors.txt, harness transcription). The chain simulator stops at deneb, so electra is covered by accessor and raw-copy histories only; electra's pending queues have no typed accessor and are only checked for staying unchanged. Generic ztyp methods promoted onto the views are listed as uncovered in the evidence.",
+  ref="§3 C15"),
 }
 PENDING_REASON = "check not built yet in this session (designed in DESIGN.md §3; will be claimed when its machinery is committed)"
 
